@@ -42,6 +42,7 @@ type c16In struct {
 type c16Exec struct {
 	Ran    bool   `json:"ran"`   // an execution was attempted at all
 	Ok     bool   `json:"ok"`    // the statement executed without error
+	Syn    bool   `json:"syn"`   // it was refused by SQLite's own grammar (not a statement SQLite can run at all)
 	Rows   string `json:"rows"`  // digest of the result rows (values only)
 	State  string `json:"state"` // digest of probes' outcomes + database state
 	Detail string `json:"detail"`
@@ -382,7 +383,9 @@ func c16Observe(db c16Querier, pre []string, text string, probe []string, base s
 		det.WriteString("rows: " + rt + "\n")
 	} else {
 		res.Rows = "-"
-		det.WriteString("error: " + err.Error() + "\n")
+		msg := err.Error()
+		res.Syn = strings.Contains(msg, "syntax error") || strings.Contains(msg, "unrecognized token") || strings.Contains(msg, "incomplete input")
+		det.WriteString("error: " + msg + "\n")
 	}
 	var st strings.Builder
 	for _, p := range probe {
